@@ -599,6 +599,12 @@ fn contexts() -> Vec<(&'static str, &'static str, fn(K) -> bool)> {
         ("sum-of-three-first", "let zzk = H | num | str;", prim),
         ("sum-of-four-third", "let zzk = {} | { 'a num } | H | {};", obj),
         ("sum-through-function", "let zzf zzx zzy zzz = zzx | zzy | zzz; let zzk = zzf num str H;", prim),
+        // alternatives that agree with each other and are no schemas all the same (nothing but the rule of the
+        // operator itself rejects them)
+        ("sum-with-itself", "let zzk = H | H;", schema),
+        ("sum-of-three-alike", "let zzk = H | H | H;", schema),
+        ("sum-of-a-variable-with-itself", "let zzc = H; let zzk = zzc | zzc;", schema),
+        ("sum-of-a-parameter-with-itself", "let zzf zzx = zzx | zzx; let zzk = zzf H;", schema),
         // functions of an imported module whose parameter kind is fixed by an equation of their body (`LIB` is replaced
         // by the import); positions that are only checked once kinds are resolved (array items, property values) leave the
         // parameter open, which is the open finding on cross-module instantiation, not this table's subject
